@@ -8,28 +8,28 @@ ids = [p['id'] for p in props]
 # id -> (technique, level text, level note, design ref)
 DONE = {
  "C01": ("differential runtime oracle: independent ETF reader + denotation over boundary corpus and seeded random term trees",
-         "Runs the real encoder/decoder on ~7e4 (quick) / ~3e6 (thorough) term trees covering every variant and every encoding boundary of the quantifier; every encoding is read by an independent implementation of the format and compared by value, re-encoded and compared byte-wise; a history-independence probe repeats a fixed set of ordinary calls (incl. encode_to_writer and the deepest legal nesting) before and after calls that fail or are unusual, issued once, a few times or 300 times. Held-on-observed, not proof.",
+         "Runs the real encoder/decoder on ~7e4 (quick) / ~3e6 (thorough) term trees covering every variant and every encoding boundary of the quantifier; every encoding is read by an independent implementation of the format and compared by value, re-encoded and compared byte-wise; a history-independence probe repeats a fixed set of ordinary calls (incl. encode_to_writer and the deepest legal nesting) before and after calls that fail or are unusual, issued once, a few times or 300 times; the names real nodes send also in terms whose atoms are put together field by field, and a constructor that names another atom than asked is reported as such. Held-on-observed, not proof.",
          "Trusted base: /verif/harness/src/refmodel (Val, ref_decode, val_of/term_of), transcribed from erl_ext_dist. Generator only builds well-formed terms.", "6/C01"),
  "C02": ("process-level runtime observer: decoders run in child processes on a 2 MiB-stack thread under a counting allocator; exit status, signal and requested allocation sizes are the oracle",
-         "~1.5e5 (quick) / ~2e6 (thorough) hostile inputs (tag x count grid, nesting bombs to depth 4e6, truncations, mutations, zip bombs, hostile headers, valid maps keyed by pairs of sibling values - the decoders order keys while building maps - ~200 atoms of the OTP vocabulary under every tag and position, and a text-boundary family: ASCII runs of every length 0..300 followed by a 2/3/4-byte character as atom, map key, map value, node name, binary and string) through all 8 decoding entry points, in a debug and a release build; a crash is attributed to the case in flight and the child restarted.",
+         "~1.5e5 (quick) / ~2e6 (thorough) hostile inputs (tag x count grid, nesting bombs to depth 4e6, truncations, mutations, zip bombs, hostile headers, valid maps keyed by pairs of sibling values - the decoders order keys while building maps - ~200 atoms of the OTP vocabulary under every tag and position, and a text-boundary family: ASCII runs of every length 0..300 followed by a 2/3/4-byte character as atom, map key, map value, node name, binary and string) through all 8 decoding entry points plus decode_with_atom_cache against the cache a running connection leaves behind (with a grid of cache references inside, just past and far beyond the current header), in a debug and a release build; a crash is attributed to the case in flight and the child restarted.",
          "Memory limit = 1 MiB + 256 x (input + really inflated bytes); stack = 2 MiB. Allocation above 6 GiB is reported by the allocator instead of being served.", "6/C02"),
  "C03": ("differential runtime oracle: independent ETF writer enumerating all admissible encodings, decoded by the library",
          "For each generated value the independent writer walks the admissible encodings (exhaustively for values with <=200 combinations, randomly beyond) and the library's decode must denote exactly that value; maps keyed by every pair of sibling values (numeric neighbours across representations, identifiers one field apart, lists differing in tail kind ...) are included; trailing bytes must be reported; all small structures exhaustively; a history-independence probe with truncations exactly at term boundaries. Cause-class signatures separate encoding alternatives and merged map keys.",
          "Trusted base: refmodel encode/decode pair (continuously self-checked against each other); LOCAL_EXT read as hash8+term.", "6/C03"),
  "C04": ("online trace checker over the handshake API (shadow of the handshake epoch, own MD5) + scripted deviating peer over loopback with a fake EPMD",
-         "All API-call sequences up to length 4 (quick) / 5 (thorough) over 23 symbolic actions plus random longer ones are checked online: Connected only after a reply emitted in this epoch and a later matching digest; reply digest, flag intersection and byte layouts checked against independent models. 29 peer behaviours (incl. silence inside a frame at every step, 24 structured digest corruptions, 90 garbage statuses with multi-byte characters at every offset) x flag sets against Connection::connect on real sockets.",
+         "All API-call sequences up to length 4 (quick) / 5 (thorough) over 23 symbolic actions plus random longer ones are checked online: Connected only after a reply emitted in this epoch and a later matching digest; reply digest, flag intersection and byte layouts checked against independent models. 33 peer behaviours (incl. frames of length zero before each step and as a flood, silence inside a frame at every step, 24 structured digest corruptions, 90 garbage statuses with multi-byte characters at every offset) x flag sets against Connection::connect on real sockets.",
          "Own MD5 (RFC 1321 vectors checked at start); cookie digested as UTF-8; timing bound measured from the peer's silence, overruns are inconclusive, only the 15 s watchdog is a violation.", "6/C04"),
  "C05": ("runtime monitor with scripted AsyncRead and AsyncWrite transports: all chunkings of short streams, random cuts of long ones, scripted short/vectored writes and a filling pipe on the write side, allocation measured; second read loop over real loopback sockets",
-         "All 2^(n-1) chunkings of streams up to 11 (quick) / 15 (thorough) bytes with Pending between chunks in both framing modes, boundary lengths, over-long lengths (no large allocation), EOF at every offset; the streaming writer over transports accepting 1..6 bytes per call (plain and vectored, with Pending) and through pipes of capacity 1..24 (64) against a concurrent reader; handshakes whose last message arrives glued to the first distribution frames, read across the hand-over of the read half; one transport object over its whole life (writes failing for want of a connection, by reset or by timeout, close, connect to the next socket) with every peer's received bytes compared against the writes reported successful; the node's duplicate read loop on a real socket written in scripted slices.",
+         "All 2^(n-1) chunkings of streams up to 11 (quick) / 15 (thorough) bytes with Pending between chunks in both framing modes, boundary lengths, over-long lengths (no large allocation), EOF at every offset; framers and deframers made for their mode, switched to it, or switched away and back, and one pair carried across the handshake-to-distribution switch with frames of every size class behind it; the streaming writer over transports accepting 1..6 bytes per call (plain and vectored, with Pending) and through pipes of capacity 1..24 (64) against a concurrent reader; handshakes whose last message arrives glued to the first distribution frames, read across the hand-over of the read half; one transport object over its whole life (writes failing for want of a connection, by reset or by timeout, close, connect to the next socket) with every peer's received bytes compared against the writes reported successful; the node's duplicate read loop on a real socket written in scripted slices.",
          "Independent framing model: big-endian 2/4-byte length prefix.", "6/C05"),
  "C08": ("differential runtime oracle against a transcription of the protocol's control-message table; lossless parse/serialise monitor over a tag x arity grid",
-         "Every tag 0..255 x arity 1..10 x random fields parsed and serialised back (value equality through the denotation), both serialisers compared, wire trip, unlink ids over the 64-bit range in both integer representations, non-messages rejected (heads outside 0..255 over the whole integer range incl. values congruent to a tag modulo 2^8/2^16/2^32), and each named operation compared with the protocol table.",
+         "Every tag 0..255 x arity 1..10 x random fields parsed and serialised back (value equality through the denotation), both serialisers compared, wire trip, unlink ids over the 64-bit range in both integer representations, non-messages rejected (heads outside 0..255 over the whole integer range incl. values congruent to a tag modulo 2^8/2^16/2^32), and each named operation - built from its variant and through its public helper constructor - compared with the protocol table.",
          "Protocol table transcribed from erl_dist_protocol (DESIGN.md appendix A).", "6/C08"),
  "C09": ("history checker against a sequential model of the assembler; exhaustive arrival permutations for small fragment counts",
-         "All n! arrival orders for n <= 6 (quick) / 7 (thorough) x cut patterns, every fragment (header included) duplicated at every later position of every order for n <= 4 (5), random orders up to n = 64, random duplicates / id 0 / out-of-range ids, 2..4 interleaved sequences with arbitrary ids, slowly arriving sequences with a sweep before each arrival, expiry; the same through a real connection with duplicates after completion and re-used sequence ids; every return value and pending_count compared with the model.",
+         "All n! arrival orders for n <= 6 (quick) / 7 (thorough) x cut patterns, every fragment (header included) duplicated at every later position of every order for n <= 4 (5), random orders up to n = 64, random duplicates / id 0 / out-of-range ids, 2..4 interleaved sequences with arbitrary ids, assemblers made by new / default / with_timeout with a sweep before every arrival, slowly arriving sequences with a sweep before each arrival, expiry; the same through a real connection with duplicates after completion and re-used sequence ids; every return value and pending_count compared with the model.",
          "Fragments are derived from an original message the protocol's way (first fragment numbered n, counting down).", "6/C09"),
  "C10": ("runtime byte-identity monitor over decode->conversion chain->encode, plus equality/hash/order oracle across identifier forms",
-         "3e4 (quick) / 2e6 (thorough) identifiers in plain and node-local form, in 9 term contexts, through random chains of clone / borrow / move / box / clone_from over a slot that held another identifier (directly and through Vec, Option, Box); re-encoded bytes must equal the received bytes; both forms must be ==/hash-equal/cmp-Equal and differ from identifiers with one field changed; every ordered pair of sibling identifiers (one field / one trailing reference word apart) in all four form combinations as the two keys of one map.",
+         "3e4 (quick) / 2e6 (thorough) identifiers in plain and node-local form, in 9 term contexts, through random chains of clone / borrow / move / box / clone_from over a slot that held another identifier (directly and through Vec, Option, Box); re-encoded bytes must equal the received bytes, also behind a distribution header (single term and next to a control tuple); both forms must be ==/hash-equal/cmp-Equal and differ from identifiers with one field changed; every ordered pair of sibling identifiers (one field / one trailing reference word apart) in all four form combinations as the two keys of one map.",
          "Trusted: hand-assembled context bytes use only encodings the library emits canonically; LOCAL_EXT layout as documented by the library.", "6/C10"),
  "C11": ("runtime law checker over the full comparison matrix of a term universe (all pairs, all triples), owned vs zero-copy, plus std collections as consequence oracles",
          "Every pair and every triple of a universe of ~1100 (quick) / ~1700 (thorough) terms covering all representation boundaries and families of sibling values (genr/near.rs) is checked for antisymmetry, transitivity, ==>Equal, ==>equal hash, owned/borrowed agreement; sort/BTreeSet/HashSet behaviour is checked as a consequence. Exhaustive over the stated universe only.",
@@ -38,34 +38,34 @@ DONE = {
          "All ordered pairs of a universe of ~1100 (quick) / ~2000 (thorough) terms (incl. the sibling-value families) are compared by the library and by an independent exact implementation of Erlang's term order on the denoted values.",
          "Trusted base: refmodel::val::erl_cmp (exact int/float comparison, list/bit-string/map rules); identifier/fun order only checked for equality; maps with mixed int/float keys excluded.", "6/C12"),
  "C13": ("differential runtime monitor: zero-copy decoder vs owned decoder on valid modern encodings, truncations, mutations and random bytes",
-         "~3.4e5 (quick) / ~1e7 (thorough) inputs incl. every value also in legacy-tag encodings and 6e4 maps keyed by sibling values (also pairs Erlang's == identifies and non-finite floats); structural comparison does not go through the library's ==.",
+         "~3.4e5 (quick) / ~1e7 (thorough) inputs incl. every value also in legacy-tag encodings and 6e4 maps keyed by sibling values (also pairs Erlang's == identifies and non-finite floats); every valid input with one place spelled another way the format offers (judged as valid modern input when an independent reader confirms); structural comparison does not go through the library's ==.",
          "Modern tag set as listed in the evidence assumptions; inputs that make a decoder panic/abort are left to C02.", "6/C13"),
  "C14": ("differential runtime oracle: independent distribution-header reader for the library's writer, and an atom-cache sender model producing message histories for the library's reader",
-         "Writer: 0..300 distinct atoms, even/odd counts, all length classes, read by an independent header reader and by the library. Reader: 300 (quick) / 6e4 (thorough) histories of up to 50 messages (a third of them control-only) with new entries, re-use, overwrites, all segments, header position != slot, decoded with one persistent cache.",
+         "Writer: 0..300 distinct atoms, even/odd counts, all length classes, read by an independent header reader and by the library. Reader: 300 (quick) / 6e4 (thorough) histories of up to 50 messages (a third of them control-only) with new entries, re-use, overwrites, all segments, header position != slot, messages with a faultless header and undecodable terms in between, decoded with one persistent cache.",
          "Header layout per erl_dist_protocol; the reference writer/reader pair is self-checked at start.", "6/C14"),
  "C15": ("runtime round-trip monitor over a family of Rust types on both paths (term, bytes), classifying equal / altered / error",
-         "All integer widths with boundary values, floats, char, strings, options, unit, tuples, sequences, maps with string and integer keys, plain and ElixirStruct structs, all four enum variant shapes (compound payloads; variants and fields spelled like the format's own atoms), options of empty containers, nestings; a history-independence probe; ~1.6e4 (quick) / ~1e6 (thorough) values.",
+         "All integer widths with boundary values, floats, char, strings, options, unit, tuples, sequences, maps with string and integer keys, plain and ElixirStruct structs (also with raw-identifier fields, nested), all four enum variant shapes (compound payloads; variants and fields spelled like the format's own atoms), options of empty containers, nestings; a history-independence probe; ~1.6e4 (quick) / ~1e6 (thorough) values.",
          "Excluded shapes as in the property (nested options, Option<()>, NaN, an Option directly around a variant spelled nil/undefined).", "6/C15"),
  "C16": ("runtime uniqueness oracle under a turn-based deterministic scheduler driven by sync-point hooks (interleavings enumerated), free-running stress with injected delays, sequential wrap runs",
-         "Interleavings of 2x1, 2x2, 3x1 (+3x2, 4x1 thorough) allocations enumerated depth-first over the hook points from counter positions at and before the wrap; 2..16-thread stress with seeded delays; 2..5 sequential wraps; histories of allocations interleaved with set_creation to new, the same and earlier values; 16-thread make_reference. Evidence reports the distinct step orders actually realised.",
+         "Interleavings of 2x1, 2x2, 3x1 (+3x2, 4x1 thorough) allocations enumerated depth-first over the hook points from counter positions at and before the wrap; 2..16-thread stress with seeded delays; 2..5 sequential wraps; histories of allocations interleaved with set_creation to new, the same and earlier values; 16-thread make_reference; make_reference among unlink / monitor requests of the same node that succeed or fail behind a busy connection. Evidence reports the distinct step orders actually realised.",
          "Needs the verif-hooks sync points and lock probe in PidAllocator::allocate; uniqueness only within 2^32 serial increments.", "6/C16"),
  "C06": ("history checker at the client boundary: a scripted peer sends uniquely identified messages in every wire form over a real socket, the values returned by Connection::receive_message are compared with the sent sequence",
-         "240 (quick) / 9000 (thorough) peer histories under three negotiated flag sets: every control kind, payloads to 70 kB, distribution headers from the atom-cache sender model, 1..5 fragments (also interleaved sequences), ticks and 21 kinds of junk frames at random positions - also between the fragments of an open sequence and claiming to belong to it - random TCP slicing, histories ending with the peer dying inside a frame. Exactly-once, in-order, intact delivery; junk costs at most one error; no panic. Slow-peer timelines (ticks, silences longer than the caller's timeout, frames in pieces) for receive_message_from_read_half.",
+         "240 (quick) / 9000 (thorough) peer histories under three negotiated flag sets: every control kind, payloads to 70 kB, distribution headers from the atom-cache sender model, 1..5 fragments (also interleaved sequences), long-lived connections that learn atoms in more than 256 cache slots, ticks and 21 kinds of junk frames at random positions - also between the fragments of an open sequence and claiming to belong to it - random TCP slicing, histories ending with the peer dying inside a frame. Exactly-once, in-order, intact delivery; junk costs at most one error; no panic. Slow-peer timelines (ticks, silences longer than the caller's timeout, frames in pieces) for receive_message_from_read_half.",
          "Scripted peer and fake EPMD are independent of edp_client (own layouts, own MD5); needs the EPMD port override hook.", "6/C06"),
  "C07": ("frame-level monitor at a scripted peer with an independent protocol reader, plus exactly-once / per-caller-order / no-interleaving checker for concurrent senders under seeded yields at the partial-write hooks",
-         "Every operation x argument class x both framing modes against a directly driven Connection (one frame, right control tuple, payload, node-local ids verbatim and plain ids plain, nothing before the handshake nor after a handshake that failed at its last step - the peer records any byte that still arrives), with planned and random histories re-using a destination and its twin in the other wire form; frames of 1..13 MiB written while the peer is not reading yet; 2..64 tasks x 5..40 operations through one Node on a current-thread runtime with injected yields between the partial writes and on a multi-thread runtime.",
+         "Every operation x argument class x both framing modes against a directly driven Connection (one frame, right control tuple, payload, node-local ids verbatim and plain ids plain, nothing before the handshake nor after a handshake that failed at its last step - the peer records any byte that still arrives), with planned and random histories re-using a destination and its twin in the other wire form; frames of 1..13 MiB written while the peer is not reading yet; operations that cannot be sent inside histories; 9..16 MiB remote calls with 1..150 ms timeouts through a Node followed by ordinary operations; 2..64 tasks x 5..40 operations through one Node on a current-thread runtime with injected yields between the partial writes and on a multi-thread runtime.",
          "Unique ids travel in payloads / from-pids; needs the EPMD override and the conn:send yield points.", "6/C07"),
  "C17": ("history checker over concurrent remote calls against a scripted rex peer (permuted / late / duplicated / missing / misaddressed replies, faults) with a quiescence invariant on the outstanding-call table read through a hook",
          "36+18 (quick) / 3000+1500 (thorough) scenarios with 1..64 concurrent callers, 9 reply scripts, a second wave of calls outstanding while late and repeated replies of the first wave arrive, callers looping while the peer's socket goes away (the suspension point between registration and connection lookup widened by the hook), calls made before Node::start answered while later calls wait (EPMD creations 1..3 and 32-bit), replies misaddressed by serial / creation / node name, payload-less SENDs, a call to an unconnected node and a call whose request cannot be sent; seeded yields at the insert/send/remove and lookup/remove hooks. Own reply only, every call ends, table empty at quiescence.",
          "Needs pending_rpc_count() and the node:rpc / node:route yield points; real-time call timeouts (overruns = inconclusive); a plain-thread stall watchdog (120 s without a scenario heartbeat) reports a blocked runtime.", "6/C17"),
  "C18": ("offline checkers over a recorded event log: per-sender FIFO exactly-once delivery, exactly-once exit/monitor notices, name lifecycle, exact per-name linearizability search, one reply per behaviour call",
-         "60 (quick) / 8000 (thorough) random operation histories (3..8 processes, 2..6 tasks, 1..3 contended names) on a multi-thread runtime and on a current-thread runtime with yields at the exit-propagation hooks; histories recorded at the client boundary with one logical clock; bursts of 400..3000 messages from 1..3 senders to a gated process (exactly once, in each sender's order); 2..6 tasks racing to register the same 150..1200 names; behaviour calls from a caller parked in the middle of terminating mixed with calls from a live caller.",
+         "60 (quick) / 8000 (thorough) random operation histories (3..8 processes, 2..6 tasks, 1..3 contended names) on a multi-thread runtime and on a current-thread runtime with yields at the exit-propagation hooks; histories recorded at the client boundary with one logical clock; bursts of 400..3000 messages from 1..3 senders to a gated process (exactly once, in each sender's order); 2..6 tasks racing to register the same 150..1200 names; names of live processes with a past (given up by a process that then fails) must keep resolving; behaviour calls from a caller parked in the middle of terminating mixed with calls from a live caller.",
          "Links/monitors are compared as of a quiescent barrier before the failure; per-name histories are cut at quiescent instants and checked exactly (<= 22 overlapping operations).", "6/C18"),
  "C19": ("scripted inbound histories over a real connection with a probe-after-fault oracle and connection-membership sampling",
-         "45 (quick) / 3000 (thorough) histories: routed sends / exits / monitor exits / rpc replies must reach exactly their target with fields intact; after each of 14 survivable faults (incl. messages for a process whose handler crashed or panicked, over-deep frames followed by the deepest legal payload, control tuples with odd heads) a probe must be delivered and the connection still be registered; bursts of 150..2600 frames for a gated or slow process must each be delivered exactly once; close / EOF inside a frame / over-long length must deregister within 5 s; 12.5 s quiet periods: silence then a frame in pieces, tick then silence, then an ordinary frame.",
+         "45 (quick) / 3000 (thorough) histories: routed sends / exits / monitor exits / rpc replies must reach exactly their target with fields intact, also right after the registered name changed hands or was given up locally; after each of 14 survivable faults (incl. messages for a process whose handler crashed or panicked, over-deep frames followed by the deepest legal payload, control tuples with odd heads) a probe must be delivered and the connection still be registered; bursts of 150..2600 frames for a gated or slow process must each be delivered exactly once; close / EOF inside a frame / over-long length must deregister within 5 s, after which a second connection to the same peer must register, deliver, survive a fault and deregister in turn; 12.5 s quiet periods: silence then a frame in pieces, tick then silence, then an ordinary frame.",
          "Verdict by probe delivery, never by timing; the node's 10 s read timeout is fixed in the library, so the quiet scenario needs real time.", "6/C19"),
  "C20": ("runtime round-trip / no-fabrication monitor for the Elixir wrappers, i128 reference model for ranges (debug and release builds), model-based check of proplist/map helpers and builders",
-         "Every wrapper through term and wire with extreme field values, mutated terms must be rejected or accepted without fabricating a field; range len/contains/iteration/size_hint against an i128 reference over a bounds x steps grid in both build profiles; proplist<->map conversions on well-formed proplists; derive(ElixirStruct) mappings (raw-identifier fields, no fields, nested, fields named like words of the format) through term, bytes and the plain codec, wrong shapes rejected.",
+         "Every wrapper through term and wire with extreme field values, mutated terms must be rejected or accepted without fabricating a field; range len/contains/iteration/size_hint against an i128 reference over a bounds x steps grid in both build profiles; proplist<->map conversions on well-formed proplists; both builders driven through every method (conditional ones, extend with keys already present) against a model; derive(ElixirStruct) mappings (raw-identifier fields, no fields, nested, fields named like words of the format) through term, bytes and the plain codec, wrong shapes rejected.",
          "Judgement calls listed in DESIGN.md 7a (Elixir. prefix normalisation, nil as absent optional).", "6/C20"),
 }
 
